@@ -330,6 +330,7 @@ def run(chk):
     hunt2_rules(chk, repo)
     hunt3_rules(chk, repo)
     hunt4_rules(chk, repo)
+    hunt5_rules(chk, repo)
     from rules import C19 as _C19
 
     _C19.textsize(chk, repo, "C04.length")
@@ -443,6 +444,76 @@ def ioloop(chk, repo, rule="C04.ioloop"):
                 else:
                     chk.ok(rule, x, f"{cls.name}.write_with_length: the read loop is left early only when the known size was written or the declared length is used up ({'; '.join(atoms)[:120]})")
     chk.expect_count(rule, n, 1, "early exits of file read loops in write_with_length implementations")
+
+
+def hunt5_rules(chk, repo):
+    """Rules written after the fifth defect hunt (F313-F315)."""
+    from sa.dtable import Evaluator
+    HW, MP = "aiohttp/http_writer.py", "aiohttp/multipart.py"
+    # ---- C04.copy: what the HTTP writer leaves with the transport is not a buffer the caller can still change ------------------------------------------------
+    # asyncio's selector transport keeps a memoryview of what it could not send at once: a handler that streams through one refilled bytearray
+    # (`await resp.write(buf)`) to a slow reader sends blocks with the content of later blocks, under a correct Content-Length.
+    sw = repo.cls(HW, "StreamWriter")
+    n = 0
+    def immutable(e, fn, depth=2):
+        if isinstance(e, ast.Constant) and isinstance(e.value, bytes):
+            return True
+        if isinstance(e, ast.Call) and (norm.raw(e.func) == "bytes" or (isinstance(e.func, ast.Attribute) and e.func.attr == "join" and isinstance(e.func.value, ast.Constant))):
+            return True
+        if isinstance(e, ast.Call) and norm.raw(e.func) in ("tuple", "list") and e.args and isinstance(e.args[0], (ast.GeneratorExp, ast.ListComp)):
+            return immutable(e.args[0].elt, fn, depth)
+        if isinstance(e, ast.IfExp):
+            t = norm.raw(e.test)
+            return ("type(" in t and "is bytes" in t and immutable(e.orelse, fn, depth)) or ("is not bytes" in t and immutable(e.body, fn, depth)) or (immutable(e.body, fn, depth) and immutable(e.orelse, fn, depth))
+        if isinstance(e, ast.BinOp) and isinstance(e.op, ast.Add):
+            return True  # a concatenation is a new object
+        if isinstance(e, ast.Name) and depth:
+            vals = [v for _d, v in norm.fn_defs(fn.node).defs.get(e.id, []) if v is not None]
+            return bool(vals) and all(immutable(v, fn, depth - 1) for v in vals)
+        return False
+    for name, fn in sw.methods.items():
+        for c in prog.calls_in(fn.node):
+            if norm.raw(c.func) in ("transport.write", "transport.writelines", "self.transport.write", "self._protocol.transport.write") and c.args:
+                n += 1
+                if immutable(c.args[0], fn):
+                    chk.ok("C04.copy", c, f"StreamWriter.{name}(): `{K.short(c.args[0], 50)}` is a new bytes object (or exactly bytes)")
+                else:
+                    chk.violation("C04.copy", c, K.short(c), "transport.write(chunk if type(chunk) is bytes else bytes(chunk))",
+                                  f"StreamWriter.{name}() hands the caller's own object to the transport, which keeps a reference to whatever it could not send at once: a handler that declares a Content-Length and streams through one refilled bytearray to a slow client sends the right number of bytes, but 40 of 64 blocks carry the content of a later block (the WebSocket writer copies for the same reason)")
+    chk.expect_count("C04.copy", n, 3, "transport writes of StreamWriter")
+    # ---- C04.coding.empty: an announced content coding is finished even when the body is empty -------------------------------------------------------------------
+    # set_eof() ends a message without a body and does not flush the compressor; write_eof() does.  The client takes the shortcut when
+    # _should_write() says there is nothing to write - which must not be the case for a request with `compress=`.
+    swr = repo.func(REQ, "ClientRequest._should_write")
+    rets = [r for r in ast.walk(swr.node) if isinstance(r, ast.Return) and r.value is not None]
+    try:
+        vals = [bool(Evaluator({"self.body.size": 0, "self._continue": None, "protocol.writing_paused": False, "self.compress": "deflate", "self._body.size": 0}).ev(r.value)) for r in rets]
+    except Exception as e:
+        vals = None
+        chk.analysis_error(f"C04.coding.empty: cannot evaluate ClientRequest._should_write(): {e}")
+    if vals is not None:
+        if rets and all(vals):
+            chk.ok("C04.coding.empty", rets[0], "_should_write(): a request with compress= always goes through write_eof(), which finishes the coding (an empty body is 8 bytes of deflate)")
+        else:
+            chk.violation("C04.coding.empty", rets[0] if rets else swr, K.short(rets[0]) if rets else "_should_write", "... or bool(self.compress) ...",
+                          "`post(data=io.BytesIO(b''), compress='deflate')` goes out as `Content-Encoding: deflate`, chunked, with zero body bytes: the nothing-to-write shortcut ends the message with set_eof(), which never flushes the compressor - zlib on the other side reports an incomplete stream; the same request with expect100=True carries the correct 8-byte stream")
+    # ---- C04.san.first: no part is written before the headers of every part were found sendable --------------------------------------------------------------------
+    mw = repo.func(MP, "MultipartWriter.write")
+    g = cfg_of(mw.node)
+    outs = [x for x in g.nodes if x.in_finally_copy is None and isinstance(getattr(x, "ast", None), ast.AST) and x.kind in ("stmt", "test") and any(
+        isinstance(a, ast.Await) and isinstance(a.value, ast.Call) and norm.raw(a.value.func).split(".")[-1] in ("write", "write_with_length") for a in ast.walk(x.ast))]
+    chks = [x for x in g.nodes if x.kind == "stmt" and isinstance(getattr(x, "ast", None), ast.AST) and any(isinstance(c.func, ast.Attribute) and c.func.attr == "_check_part_headers" for c in K.node_calls(x))]
+    if not outs:
+        chk.analysis_error("C04.san.first: no write found in MultipartWriter.write")
+    else:
+        p_ = g.find_path([g.entry], lambda x: x in outs, lambda x: x in chks, EXPLICIT)
+        helper = repo.func_opt(MP, "MultipartWriter._check_part_headers")
+        covers = helper is not None and any(isinstance(a, ast.Attribute) and a.attr == "_binary_headers" for a in ast.walk(helper.node)) and any(isinstance(l, ast.For) and "self._parts" in norm.raw(l.iter) for l in ast.walk(helper.node))
+        if p_ is None and covers:
+            chk.ok("C04.san.first", chks[0].ast, "MultipartWriter.write(): the header block of every part (nested writers included) is serialised - which is the check - before the first byte is written")
+        else:
+            chk.violation("C04.san.first", outs[0].ast, K.short(outs[0].ast), "self._check_part_headers()  at the top of write()",
+                          "a forbidden character in a header of a later part is refused only when that part is reached: with a streamed (unknown-size) first part, 309 bytes - the request head and the first part - are on the wire before the write fails; the caller gets ClientConnectionError instead of the up-front ValueError, a server response is a truncated 200", path=g.fmt_path(p_) if p_ else None)
 
 
 def hunt4_rules(chk, repo):
